@@ -331,6 +331,13 @@ Proof.
 Qed.
 Print Assumptions C15_split_create_refuted.
 
+(* An HTTP request whose client address cannot be determined (the configured client_addr_header does not parse) is
+   answered 400; it is not forwarded and it changes no bucket: it cannot be used to get queries past the limiter. *)
+Theorem C15_unparsable_client_address : forall (r : rl) (now : Z) (l : lim_listener),
+  listener_step r now (ABadAddr l) = (r, OBadRequest) /\ forwards OBadRequest = false.
+Proof. intros r now l. split; reflexivity. Qed.
+Print Assumptions C15_unparsable_client_address.
+
 (* ---- non-vacuity ---- *)
 
 (* 192.168.1.1 and 192.168.1.200 share a bucket, 192.168.2.1 does not; ::ffff:192.168.1.7 is charged to
